@@ -32,6 +32,8 @@ PRODUCERS = ['EntityMeta._get_by_raw_pkval_', 'EntityMeta._fetch_objects', 'unpi
 
 def run(ctx):
     repo, cg = ctx.repo, ctx.cg
+    from . import C08
+    C08.decimal_norm_rule(ctx, prefix='C11-KEYNORM')      # the key in the identity map equals the key the database hands back
     core = repo.mod(CORE)
     idm = repo.fn(CORE, 'EntityMeta._get_from_identity_map_')
     n = 0
@@ -115,6 +117,7 @@ def run(ctx):
 
 
 MUTANTS = [
+    dict(id='C11-norm1', file='pony/orm/dbapiprovider.py', fn='DecimalConverter.validate', old="        if exp is not None and val.is_finite(): val = val.quantize(exp)", new="        if exp is not None and val.is_finite() and not isinstance(val, Decimal): val = val.quantize(exp)", expect='C11-KEYNORM'),
     dict(id='C11-r1', file='pony/orm/core.py', fn='SessionCache.update_composite_index', old="        if prev_vals is not None: del cache_index[prev_vals]", new="            if prev_vals is not None: del cache_index[prev_vals]", expect='C11-RELEASE'),
     dict(id='C11-m1', file='pony/orm/core.py', fn='EntityMeta._get_from_identity_map_', old='        else: obj = cache_index.get(pkval)\n', new='        else: obj = None\n', expect='C11-'),
     dict(id='C11-m2', file='pony/orm/core.py', fn='Entity._delete_', old='                        undo_list.append((pk_index, obj._pkval_))\n', new='', expect='C11-UNDO'),
